@@ -38,6 +38,7 @@ type Profile struct {
 	ReopenNoDrop bool // only Close+Reopen (reference counting needs Close)
 	PlainNames bool // always the plain collection names (engines that address "a","b" literally)
 	Framed int // percentage of cases whose value callbacks frame every value with a 4-byte trailer
+	Bulk int // per mille of the cases that start with a bulk load of 1300-4000 items (then few ops, comparison at the end)
 	HugeNames bool // rarely: a 70 000-byte collection name (root records beyond 64 KiB)
 	NestedKinds []string // ops a visitor callback may run (default nestedKinds)
 	Stores   int  // max extra unrelated stores
@@ -287,6 +288,11 @@ func (p *Profile) genOpKind(t *rapid.T, kind string, gs *genState, depth int) Op
 		}
 	case OpChurn:
 		o.N = rapid.IntRange(4, 40).Draw(t, "n")
+	case OpMisc:
+		coll()
+		handle()
+		o.Flag = uni(t, 6, "misc")
+		o.Key = genKey(t, p)
 	case OpIter:
 		coll()
 		handle()
@@ -382,7 +388,21 @@ func GenCase(p *Profile) *rapid.Generator[Case] {
 			}
 		}
 		maxOps := p.MaxOps
-		if thoroughTier && uni(t, 8, "long") == 0 {
+		if p.Bulk > 0 && uni(t, 1000, "bulk") < p.Bulk {
+			// a single flush with well over a thousand dirty nodes and items
+			nc := p.NColls
+			if nc <= 0 {
+				nc = 1
+			}
+			c.Ops = append(c.Ops, Op{K: OpBulk, C: uni(t, nc, "bulkcoll"), N: 1300 + uni(t, 2700, "bulkn"), Flag: uni(t, 1000, "bulkseed")})
+			if !c.Cfg.Mem {
+				c.Ops = append(c.Ops, Op{K: OpFlush})
+			}
+			c.Cfg.CheckEvery = 0
+			c.Cfg.NameSet = 0
+			curNameSet = 0
+			maxOps = p.MinOps + 6
+		} else if thoroughTier && uni(t, 8, "long") == 0 {
 			maxOps *= 5 // the thorough tier also explores long histories (deeper trees, more versions)
 		}
 		n := rapid.IntRange(p.MinOps, maxOps).Draw(t, "nops")
